@@ -11,11 +11,18 @@ using namespace Vector::BLF;
 #ifndef CFG_LEVEL
 #define CFG_LEVEL 0
 #endif
+#ifdef INCOMPRESSIBLE
+#define NOBJ 5            /* objects larger than a container: most containers hold nothing but high-entropy bytes */
+#define TEXTLEN 50000
+#else
 #define NOBJ 52
 #define TEXTLEN 4000
+#endif
 static unsigned char expect[260000]; static long expectLen;
 static unsigned char img[VP_FS_CAP];
 static unsigned char inflated[260000];
+static unsigned char second[NOBJ], middle[NOBJ];
+extern "C" int uncompress(unsigned char * dest, unsigned long * destLen, const unsigned char * src, unsigned long n);
 static uint32_t rd32(const unsigned char * p) { uint32_t v; memcpy(&v, p, 4); return v; }
 static uint16_t rd16(const unsigned char * p) { uint16_t v; memcpy(&v, p, 2); return v; }
 static uint64_t rd64(const unsigned char * p) { uint64_t v; memcpy(&v, p, 8); return v; }
@@ -30,6 +37,11 @@ extern "C" void h_big_session() {
         for (int i = 0; i < NOBJ; i++) {
             AppText * t = new AppText; t->source = s0 + static_cast<uint32_t>(i);
             t->text.assign(TEXTLEN, static_cast<char>('a' + i % 26)); t->text[0] = static_cast<char>(c0); t->text[TEXTLEN - 1] = static_cast<char>(c1);
+#ifdef INCOMPRESSIBLE
+            // high-entropy payload (binary blobs): deflate cannot shrink it and needs its worst-case output size
+            { static uint32_t lcg = 12345; for (int k = 1; k < TEXTLEN - 1; k++) { lcg = lcg * 1664525u + 1013904223u; t->text[k] = static_cast<char>(lcg >> 24); } }
+#endif
+            second[i] = static_cast<unsigned char>(t->text[1]); middle[i] = static_cast<unsigned char>(t->text[TEXTLEN / 2]);
             { MemFile m(expect + expectLen, sizeof expect - expectLen); t->write(m); expectLen += m.p; }
             f.write(t);
         }
@@ -46,9 +58,15 @@ extern "C" void h_big_session() {
         vp_assert(usz <= CFG_CONTAINER, "C04: no container larger than the configured container size");
         vp_assert(method == (CFG_LEVEL == 0 ? 0 : 2), "C04: compression method matches the configured level");
         long stored = osz - 32; const unsigned char * d = c + 32; long dl = stored;
-        if (method == 2) { vp_assert(stored == (long)usz + 6, "C04: deflate stream inflates to the declared size"); d = c + 34; dl = usz; }
-        else vp_assert(stored == (long)usz, "C04: stored size equals uncompressed size for method 0");
-        if (payload + dl <= (long)sizeof inflated) memcpy(inflated + payload, d, static_cast<size_t>(dl));
+        if (method == 2) {
+            // inflate with zlib's uncompress (llsym: the contract model; native replay: real zlib)
+            unsigned long len = payload <= (long)sizeof inflated ? sizeof inflated - static_cast<unsigned long>(payload) : 0;
+            int zrc = uncompress(inflated + payload, &len, c + 32, static_cast<unsigned long>(stored));
+            vp_assert(zrc == 0 && len == usz, "C04: deflate stream inflates to the declared size"); dl = usz;
+        } else {
+            vp_assert(stored == (long)usz, "C04: stored size equals uncompressed size for method 0");
+            if (payload + dl <= (long)sizeof inflated) memcpy(inflated + payload, d, static_cast<size_t>(dl));
+        }
         payload += dl; sumUncompressed += 32 + usz;
         pos += osz + osz % 4;
     }
@@ -71,7 +89,8 @@ extern "C" void h_big_session() {
                 AppText * t = static_cast<AppText *>(o);
                 vp_assert(t->source == s0 + static_cast<uint32_t>(cnt), "C01: every field value unchanged (source)");
                 vp_assert(t->text.size() == TEXTLEN && t->text[0] == static_cast<char>(c0) && t->text[TEXTLEN - 1] == static_cast<char>(c1)
-                          && t->text[1] == static_cast<char>('a' + cnt % 26), "C01: every field value unchanged (text)");
+                          && t->text[1] == static_cast<char>(second[cnt]) && t->text[TEXTLEN / 2] == static_cast<char>(middle[cnt]),
+                          "C01: every field value unchanged (text)");
             }
             delete o; cnt++;
             if (cnt > NOBJ + 2) break;
